@@ -552,6 +552,7 @@ var (
 	redeclRE    = regexp.MustCompile(`(\S+) redeclared`)
 	dupCaseRE   = regexp.MustCompile(`duplicate case (\S+)`)
 	overflowRE  = regexp.MustCompile(`(overflows|truncated to) (\w+)`)
+	overflow2RE = regexp.MustCompile(`as (\w+) value in .*\((overflows|truncated)\)`)
 	noFieldRE   = regexp.MustCompile(`undefined \(type (\S+) has no field or method (\w+)`)
 	arityRE     = regexp.MustCompile(`(not enough|too many) arguments in call to (\S+)`)
 	wrongMethRE = regexp.MustCompile(`\((missing|wrong type for) method (\w+)\)`)
@@ -628,6 +629,8 @@ func buildMsgClass(msg string) string {
 		return "redeclared-" + redeclRE.FindStringSubmatch(msg)[1]
 	case dupCaseRE.MatchString(msg):
 		return "duplicate-case"
+	case overflow2RE.MatchString(msg):
+		return "constant-overflows-" + overflow2RE.FindStringSubmatch(msg)[1]
 	case overflowRE.MatchString(msg):
 		m := overflowRE.FindStringSubmatch(msg)
 		return "constant-overflows-" + m[2]
